@@ -89,7 +89,7 @@ def run(m, chk):
         "floating-point convergence tests are reported), the Newton iterate is compared with both ends of the interval after its last update before it is returned (CLAMP), the result "
         "passes the minimum-distance filter and a sort, the curve and the point are not modified, the result depends on both. Global minimality, stationarity and non-emptiness are not decided."
     )
-    chk.decides = ["UFUNC-FLOAT (float-only numpy functions are applied to converted values: exact data do not raise TypeError)", "CANDIDATES-ONLY (the candidates are the ends of the piece and the outcomes of the Newton iteration, never the start samples)", "SCALE-REACHES (every matrix the Bezier derivative helper returns went through the division by the interval length)", "STEP-APPLIED (the Newton iterate is returned only after the step computed for it has been applied)", "NAN-GUARD (the Newton iterate is returned only after a test a NaN fails)", "START-IN-RANGE (the Newton starts are end-exact samples of the interval)", "TERM", "CLAMP both sides", "must-pass-through(min-distance filter, sort)", "PURE", "DEP-MAY", "ENDS-CANDIDATE (both ends of every piece are among the candidates)"]
+    chk.decides = ["ERROR-COVERS (the error fit_curve returns contains the quadratic form of the error matrix for every quantity the fit replaces — weighted points and weights)", "UFUNC-FLOAT (float-only numpy functions are applied to converted values: exact data do not raise TypeError)", "CANDIDATES-ONLY (the candidates are the ends of the piece and the outcomes of the Newton iteration, never the start samples)", "SCALE-REACHES (every matrix the Bezier derivative helper returns went through the division by the interval length)", "STEP-APPLIED (the Newton iterate is returned only after the step computed for it has been applied)", "NAN-GUARD (the Newton iterate is returned only after a test a NaN fails)", "START-IN-RANGE (the Newton starts are end-exact samples of the interval)", "TERM", "CLAMP both sides", "must-pass-through(min-distance filter, sort)", "PURE", "DEP-MAY", "ENDS-CANDIDATE (both ends of every piece are among the candidates)"]
     chk.not_decided = ["the returned distance is the global minimum", "stationarity of interior parameters", "non-emptiness"]
     q = P + "point_on_curve"
     term(r, chk, q)
@@ -155,6 +155,9 @@ def run(m, chk):
         need = r.srcs(ctx.fi, ["point", "curve.ctrlpoints", "curve.knotvector", "curve.weights"])
         miss = [w for w in need if not R.dep_has(have, w)]
         chk.ob("DEP-MAY", f"{q}: result depends on the point and the curve", not miss, loc=r.loc(ctx, R_.ast), detail="" if not miss else f"{q}: result ignores {r.fmt_deps(ctx.fi, miss)}", func=q, construct="result ignores an input")
+    from .extra import error_covers
+
+    error_covers(r, chk)
     from .extra import ends_candidate
 
     ends_candidate(r, chk, P + "point_on_bezier", q)
